@@ -120,10 +120,11 @@ class _OnlyRead(object):
 
 # where the characters come from: a StringIO without / with the default newline setting, a file named by its path,
 # a file opened from a descriptor (its name is a number), a pipe (it cannot seek or tell), a bare read() object
-SOURCES = ("stream", "path", "stream-default", "fd", "pipe", "reader-object", "stream-advanced")
+# a spooled temporary file (its name is None while it lives in memory)
+SOURCES = ("stream", "path", "stream-default", "fd", "pipe", "reader-object", "stream-advanced", "spooled")
 
 
-_CHEAP_SOURCES = ("stream", "stream-default", "reader-object", "stream-advanced")
+_CHEAP_SOURCES = ("stream", "stream-default", "reader-object", "stream-advanced", "spooled")
 
 
 def judge(sub, text, widths, setting, via="stream", encoding="utf-8", tmpdir=None):
@@ -144,6 +145,10 @@ def judge(sub, text, widths, setting, via="stream", encoding="utf-8", tmpdir=Non
             # the caller has already consumed a title line: what is left of the stream is the input
             source = io.StringIO("title line\n" + text, newline="")
             source.readline()
+        elif via == "spooled":
+            source = opened = tempfile.SpooledTemporaryFile(max_size=1 << 24, mode="w+", encoding="utf-8", newline="")
+            source.write(text)
+            source.seek(0)
         elif via == "pipe":
             read_end, write_end = os.pipe()
             os.write(write_end, text.encode(encoding))
@@ -209,7 +214,7 @@ def _exhaustive_shard(args):
             for widths in WIDTH_LISTS:
                 for setting in SETTINGS:
                     before = len(sub.fails)
-                    n_rows = judge(sub, text, widths, setting, _CHEAP_SOURCES[(number + len(widths)) % 4])
+                    n_rows = judge(sub, text, widths, setting, _CHEAP_SOURCES[(number + len(widths)) % len(_CHEAP_SOURCES)])
                     evals += 1
                     if has_break or (n_rows or 0) >= 2:
                         nontrivial += 1
